@@ -7,8 +7,9 @@
                                                                                               for a non-intercept term)
      np.linspace(a, b, num=n)                 = a + i * ((b - a) / (n - 1)), i < n   [linspace]   (numpy: arange * step + start)
      np.meshgrid of the axes with indexing='ij' and .ravel() (C order) of every output: point r of the mesh, first axis slowest  [mesh]
-     GAM._flatten_mesh(Xs, term)              : X = zeros; for (marginal, x) in zip(marginals, Xs): X[:, marginal.feature] = x
-                                                -- the by-column is NOT set (neither for tensor nor for simple terms)   [flatten_row]
+     GAM._flatten_mesh(Xs, term)              : X = zeros; for (marginal, x) in zip(marginals, Xs): X[:, marginal.feature] = x;
+                                                then, if the term has a by-variable, X[:, by] = 1   (since the repair of S7:
+                                                /repo commit "fix: default grids of terms with a by-variable ...")   [flatten_row, set_by]
      GAM.generate_X_grid(term, n, meshgrid=False)
         tensor : _flatten_mesh(meshgrid of the marginals' linspaces)                  [default_grid]
         other  : X = zeros; X[:, feature] = linspace; if by is not None: X[:, by] = 1
@@ -87,18 +88,29 @@ Definition flatten_row (m : nat) (feats : list nat) (pt : list T) : list T :=
   fold_left (fun row fx => set_nth (fst fx) (snd fx) row) (combine feats pt) (zeros (fr o) m).
 Definition term_marginals (t : cterm T) : list (simple T) :=
   match t with CIntercept => [] | CSimple s => [s] | CTensor ms _ => ms end.
+Definition term_by (t : cterm T) : option nat :=
+  match t with CIntercept => None | CSimple s => simple_by s | CTensor _ by_ => by_ end.
+(* if by is not None: X[:, by] = 1.0   (the last assignment, so it wins over a feature column with the same index) *)
+Definition set_by (by_ : option nat) (row : list T) : list T :=
+  match by_ with Some j => set_nth j 1 row | None => row end.
 (* _flatten_mesh(generate_X_grid(term, n, meshgrid=True), term): what partial_dependence(term, meshgrid=True) evaluates on *)
 Definition mesh_grid (lin : nat -> T * T) (m n : nat) (t : cterm T) : list (list T) :=
-  map (flatten_row m (map simple_feature (term_marginals t))) (mesh (map (axis lin n) (term_marginals t))).
+  map (fun pt => set_by (term_by t) (flatten_row m (map simple_feature (term_marginals t)) pt))
+      (mesh (map (axis lin n) (term_marginals t))).
 (* generate_X_grid(term, n, meshgrid=False); None = ValueError for the intercept *)
 Definition default_grid (lin : nat -> T * T) (m n : nat) (t : cterm T) : option (list (list T)) :=
   match t with
   | CIntercept => None
   | CSimple s =>
-      Some (map (fun x => let row := set_nth (simple_feature s) x (zeros (fr o) m) in
-                          match simple_by s with Some j => set_nth j 1 row | None => row end)
-                (axis lin n s))
+      Some (map (fun x => set_by (simple_by s) (set_nth (simple_feature s) x (zeros (fr o) m))) (axis lin n s))
   | CTensor _ _ => Some (mesh_grid lin m n t)
+  end.
+(* the same term without its by-variable *)
+Definition drop_by (t : cterm T) : cterm T :=
+  match t with
+  | CSimple (SSpline f a b n k p _) => CSimple (SSpline f a b n k p None)
+  | CTensor ms _ => CTensor ms None
+  | _ => t
   end.
 (* partial_dependence(term=i, X=None, meshgrid=false/true) with n grid points per marginal *)
 Definition pdep_default (lin : nat -> T * T) (m n : nat) (ts : list (cterm T)) (beta : list T) (i : nat) : option (list (option T)) :=
